@@ -266,7 +266,7 @@ def c04_shards(tier, seed):
         for k in ((1, 2) if tier == 'quick' else (1, 2, 3)):
             for order in ((0,) if k == 1 else (0, 1)):
                 for tyform in range(len(C04_TYS)):
-                    if tier == 'quick' and (tyform + k + order + (item == 'enum') + seed) % 2:
+                    if tier == 'quick' and ((tyform + k + order + (item == 'enum') + seed) % 2 or (item == 'enum' and k == 2 and order)):
                         continue
                     if item == 'enum' and tyform == 3:
                         continue
